@@ -66,7 +66,7 @@ func GetAtomFileInfo(atm atom.Atom) ([]FileInfo, error) {
 	if !ok {
 		return nil, fmt.Errorf("expected %s to be an AvailableVersion", atm)
 	}
-	blob, err := ca.readFile("CONTENTS")
+	blob, err := ca.readFileLines("CONTENTS")
 	if err != nil {
 		return nil, err
 	}
